@@ -86,11 +86,12 @@ pub fn batch_cfg(prop: &str, tier: Tier, seed: u64) -> BatchCfg {
         }
         "C18" => {
             cfg.variants = vec!["none".into(), "wit".into(), "full".into()];
-            cfg.runs = if quick { 60_000 } else { 3_000_000 };
+            // every single-key decision-table cell in every build, then sampled multi-key runs
+            cfg.runs = c18::CELLS_PER_BUILD * c18::BUILDS + if quick { 30_000 } else { 3_000_000 };
             cfg.chunk = if quick { 1500 } else { 15_000 };
             cfg.sample_every = cfg.runs / 4;
             cfg.level = "exploration".into();
-            cfg.rule = "Seeded sampling of the lookup's decision table: each run draws 1-3 package keys (1-3 name segments; no version, release, pre-release, build-metadata), the state of every candidate path (base: absent / WIT directory valid / empty / invalid; <base>.wasm: absent / component / garbage / directory; <base>.wat: absent / text / binary / invalid text / directory; a decoy where Path::set_extension would look; override: none / .wasm / .wat / .wit / garbage / dangling / directory), the unknown-package mode and the request order; run i executes in harness build i mod 3 (wac-resolver features none / wit / wit+wat). The real FileSystemPackageResolver::resolve runs on the materialised tree and is compared with an executable model of the documented lookup. A run is non-trivial always; distinct = distinct SHA-256 digests of the run's event log (build, mode, keys, overrides, every file and directory of the tree, expectation per key, outcome). Coverage is also reported as decision-table cells hit (coverage.cover.cells).".into();
+            cfg.rule = "Two kinds of runs. (a) Enumeration: the first 90720 runs visit every single-key decision-table cell of every build exactly once (3 builds x mode x 3 name shapes x (unversioned | 4 versions x decoy) x 4 base states x 4 .wasm states x 5 .wat states x 7 override kinds = 30240 cells per build); content bytes inside a cell are drawn from the tape. (b) Sampling of multi-key requests: each run draws 1-3 package keys (1-3 name segments; no version, release, pre-release, build-metadata), the state of every candidate path (base: absent / WIT directory valid / empty / invalid; <base>.wasm: absent / component / garbage / directory; <base>.wat: absent / text / binary / invalid text / directory; a decoy where Path::set_extension would look; override: none / .wasm / .wat / .wit / garbage / dangling / directory), the unknown-package mode and the request order; run i executes in harness build i mod 3 (wac-resolver features none / wit / wit+wat). The real FileSystemPackageResolver::resolve runs on the materialised tree and is compared with an executable model of the documented lookup. A run is non-trivial always; distinct = distinct SHA-256 digests of the run's event log (build, mode, keys, overrides, every file and directory of the tree, expectation per key, outcome). Coverage is also reported as decision-table cells hit (coverage.cover.cells).".into();
             cfg.assumptions = vec![
                 "The model is written from README.md and the doc comments of fs.rs and asserts only cells the property specifies; cells the documentation leaves open (override or candidate path being a directory, .wit/.wat override without the corresponding support) are executed, must not panic, and are not judged.".into(),
                 "Expected bytes for WIT directories / .wit overrides are what wit_parser + wit_component::encode give for that path; for .wat files what the wat crate assembles.".into(),
@@ -102,6 +103,9 @@ pub fn batch_cfg(prop: &str, tier: Tier, seed: u64) -> BatchCfg {
             });
         }
         "C19" => {
+            // a run whose in-process reference dies (stack overflow on these bytes) is C14's
+            // subject, like a child that dies on a signal: recorded, not judged
+            cfg.crashes_are_violations = false;
             cfg.runs = if quick { 3_000 } else { 150_000 };
             cfg.chunk = 50;
             cfg.sample_every = cfg.runs / 4;
